@@ -23,6 +23,8 @@ func propC17(c *Ctx) {
 	c.rulePathParamsRequired()
 	c.rulePathParamsComplete()
 	c.ruleTemplateExpressions("C17-TEMPLATE-EXPRESSIONS")
+	c.rulePanicValue("C17-PANIC-VALUE")
+	c.ruleTypedNilError("C17-TYPED-NIL-ERROR")
 	c.ruleComponentsIffTypes()
 	c.ruleResponseKeys()
 	c.ruleExpandedTree()
@@ -687,4 +689,92 @@ func (c *Ctx) ruleTemplateExpressions(rule string) {
 		return
 	}
 	r.Bad(rule, key, fmt.Sprintf("a segment is a parameter only if its first byte is '{' and its last is '}' (%d index expressions on the segment, nothing looks inside): `GET /files/{name}.json` is exported under the key \"/files/{name}.json\" without a parameter, `GET /a/{x}-{y}` with one parameter named \"x}-{y\" - template expressions that are not declared", ends), c.pos(f.Decl.Pos()))
+}
+
+// ---------- a panic always carries something ----------
+
+// rulePanicValue: the export turns the panics of the converter into an error value at one recover boundary
+// (C17-PANIC-COVER). recover() returns the value the panic was raised with; the module is built for a Go version in
+// which panic(nil) is recovered as nil, i.e. as "no panic": the boundary then returns neither an error nor a document.
+// A panic raised with an interface value that can be nil (an error a helper made, the failed half of a type assertion)
+// is such a panic.
+func (c *Ctx) rulePanicValue(rule string) {
+	r := c.R
+	r.Rule(rule, "in the packages of the serialisers (catalog, catalog/ser/openapi) and of the facade (kit), the argument of every panic(x) is not a nil interface: x is a constant, a composite literal or its address, a value of a non-interface type, the result of a function that returns a non-nil value on every path (fmt.Errorf, errors.New, fmt.Sprintf, a constructor of the library judged the same way), or a variable that a dominating test found non-nil (the re-panic of a recovered value inside `if r != nil`): panic(nil) is recovered as no panic at all by a module built for go < 1.21", 3)
+	n := 0
+	for _, f := range c.libFns() {
+		p := f.Pkg.PkgPath
+		if !strings.HasSuffix(p, "/catalog") && !strings.HasSuffix(p, "/ser/openapi") && !strings.HasSuffix(p, "/kit") {
+			continue
+		}
+		pk := f.Pkg
+		fc := c.cfgOf(f)
+		k := 0
+		ast.Inspect(f.Decl.Body, func(nd ast.Node) bool {
+			call, ok := nd.(*ast.CallExpr)
+			if !ok || len(call.Args) != 1 {
+				return true
+			}
+			id, ok := call.Fun.(*ast.Ident)
+			if !ok || id.Name != "panic" {
+				return true
+			}
+			if _, isB := pk.TypesInfo.Uses[id].(*types.Builtin); !isB {
+				return true
+			}
+			n++
+			k++
+			key := fmt.Sprintf("%s | panic #%d", f.Name(), k)
+			arg := ast.Unparen(call.Args[0])
+			why := ""
+			t := pk.TypesInfo.TypeOf(arg)
+			_, isIface := t.Underlying().(*types.Interface)
+			switch x := arg.(type) {
+			case *ast.BasicLit, *ast.CompositeLit, *ast.UnaryExpr:
+			case *ast.CallExpr:
+				cal := callee(pk, x)
+				switch {
+				case !isIface:
+				case cal != nil && cal.Pkg() != nil && (cal.Pkg().Path() == "fmt" || cal.Pkg().Path() == "errors"):
+				case cal != nil && c.alwaysNonNil(cal):
+				default:
+					why = "the result of " + exprString(x.Fun) + ", an interface value that can be nil"
+				}
+			case *ast.Ident:
+				if !isIface {
+					break
+				}
+				if tv, has := pk.TypesInfo.Types[x]; has && tv.Value != nil {
+					break
+				}
+				obj := pk.TypesInfo.Uses[x]
+				if !fc.establishedAt(call, func(cond ast.Expr, trueEdge bool) bool {
+					be, ok := ast.Unparen(cond).(*ast.BinaryExpr)
+					if !ok || !isNil(pk, be.Y) {
+						return false
+					}
+					cid, ok := ast.Unparen(be.X).(*ast.Ident)
+					if !ok || pk.TypesInfo.Uses[cid] != obj && pk.TypesInfo.Defs[cid] != obj {
+						return false
+					}
+					return (be.Op == token.NEQ && trueEdge) || (be.Op == token.EQL && !trueEdge)
+				}, nil) {
+					why = "the variable " + x.Name + ", which no dominating test has found non-nil"
+				}
+			default:
+				if isIface {
+					why = "the value of " + exprString(arg)
+				}
+			}
+			if why == "" {
+				r.Ok(rule, key, "the value of the panic is not a nil interface", c.pos(call.Pos()))
+			} else {
+				r.Bad(rule, key, "the panic is raised with "+why+": with nil the recover boundary of the export sees no panic and returns neither an error nor a document", c.pos(call.Pos()))
+			}
+			return true
+		})
+	}
+	if n < 3 {
+		r.Undecided(rule, "sites", fmt.Sprintf("only %d panic statements found in the serialiser packages", n), "")
+	}
 }
